@@ -38,13 +38,44 @@ RULE = (
 ASSUMPTIONS = [
     "histories carry unique, increasing timestamps (the snapshot is keyed by timestamp; a real receiver stamps packets on arrival)",
     "the fresh gateway is given the snapshot's own schema and the same config/known_list as the original, as a restarting application does",
-    "port stack: both gateways live on one virtual clock, so nothing ages between snapshot and restore",
+    "port stack: both gateways live on one virtual clock; the fresh one needs ~0.3 virtual seconds to start, so a device may drop out of a presence-based orphan list in between (shrinkage of those lists only is tolerated)",
     "a packet = (timestamp, frame text); the '# header (context)' annotation in the snapshot line is derived data and not compared",
     "expired packets are purged lazily, so a snapshot may lose (never gain or alter) packets that are expired on the gateway's clock without that being a change of state",
     "the schema clause is judged with eavesdropping off only (as the statement says) and on the port stack only (a fresh file gateway has no clock of its own: its 'now' is the last packet its own transport read)",
     "the port gateway's own start-up signature packet (7FFF from its own id), heard live by each stick, is not part of the restored state",
 ]
 REQUIRED = {"histories": 16, "snapshots": 40, "lines.decoded": 1000, "fixpoint.compared": 40, "idempotence.compared": 40, "expired.checked": 200, "port.histories": 8, "fixpoint.schema_compared": 20}
+
+
+def same_schema_modulo_ageing(before: dict[str, Any], after: dict[str, Any]) -> bool:
+    """Equal, or differing only by devices that dropped out of a presence-based orphan list.
+
+    The fresh gateway needs some hundred milliseconds of (virtual) time to start up and restore, so its
+    schema is read slightly later than the original's; a device whose last message crosses its expiry
+    threshold in between legitimately leaves the 'orphans' lists (they list devices *present* now).
+    Nothing may be gained, and nothing else may differ.
+    """
+    if before == after:
+        return True
+
+    def strip(s: dict[str, Any], drop: dict[str, set[str]]) -> dict[str, Any]:
+        out = {}
+        for k, v in s.items():
+            if k.startswith("orphans"):
+                out[k] = [d for d in v if d not in drop.get(k, set())]
+            elif isinstance(v, dict) and "orphans" in v:
+                out[k] = {**v, "orphans": [d for d in v["orphans"] if d not in drop.get(k, set())]}
+            else:
+                out[k] = v
+        return {k: v for k, v in out.items() if v not in ([], {}, None)}
+
+    drop: dict[str, set[str]] = {}
+    for k, v in before.items():
+        if k.startswith("orphans"):
+            drop[k] = set(v) - set(after.get(k, []))
+        elif isinstance(v, dict) and "orphans" in v:
+            drop[k] = set(v["orphans"]) - set((after.get(k) or {}).get("orphans", []))
+    return strip(before, drop) == strip(after, {})
 
 
 def diff_pkts(a: dict[str, str], b: dict[str, str]) -> dict[str, Any]:
@@ -64,19 +95,29 @@ def code_of(line: str) -> str:
 
 
 def joined_keys(gwy) -> set[str]:
-    """Timestamps of the stored messages that carry more elements than their own packet (live-joined halves)."""
-    elem = {"000A": 12, "22C9": 12}
+    """Timestamps of stored messages whose payload is not what their own packet decodes to (live-joined halves)."""
+    from ramses_tx.message import Message
+    from ramses_tx.packet import Packet
+
     out: set[str] = set()
     msgs = [m for d in gwy.devices for m in d._msg_db]
     for tcs in gwy.systems:
         msgs += list(tcs._msgs.values()) + [m for z in tcs.zones for m in z._msgs.values()]
     for m in msgs:
-        if m.code in elem and isinstance(m.payload, list) and len(m.payload) * elem[m.code] > len(m._pkt.payload):
-            out.add(m._pkt.dtm.isoformat(timespec="microseconds"))
+        if m.code not in ("000A", "22C9") or m.verb != " I":
+            continue
+        key = m._pkt.dtm.isoformat(timespec="microseconds")
+        try:
+            alone = Message(Packet.from_dict(key, repr(m._pkt)[27:])).payload
+        except Exception:  # noqa: BLE001
+            continue
+        if alone != m.payload:
+            out.add(key)
+            out.add(f"{m.code}|{m.src.id}")  # ... and: this source has a joined message of this code
     return out
 
 
-def only_array_halves_merged(first: dict[str, str], second: dict[str, str], joined: set[str] = frozenset()) -> bool:
+def only_array_halves_merged(first: dict[str, str], second: dict[str, str], joined: set[str] = frozenset(), fed: list[tuple[str, str]] | None = None) -> bool:
     """True if `second` is `first` minus array halves that a restore re-joins (recorded finding).
 
     The library joins a 000A/22C9 ' I' to the preceding ' I' of the same code and source when they are
@@ -99,7 +140,15 @@ def only_array_halves_merged(first: dict[str, str], second: dict[str, str], join
             return False
         if k in joined:  # live, this message had absorbed an earlier half that the snapshot no longer holds
             continue
+        if f"{code_of(v)}|{v[11:20]}" in joined:
+            # a *surviving* message of this code and source is joined in the live gateway: restored without
+            # its other half it decodes to a different context and displaces this packet from its slot
+            continue
         t0 = _dt.datetime.fromisoformat(k)
+        if fed and sum(  # when it was received it had a relative less than 3 s away on the wire (itself excluded)
+            1 for tf, f in fed if f[41:45] == code_of(v) and f[4:6] == " I" and f[11:20] == v[11:20] and abs((_dt.datetime.fromisoformat(tf) - t0).total_seconds()) < 3.0
+        ) >= 2:
+            continue
         if not any(  # a relative (same code, same source, ' I') less than 3 s away, on either side
             k2 != k and code_of(v2) == code_of(v) and v2[4:6] == " I" and v2[11:20] == v[11:20] and abs((_dt.datetime.fromisoformat(k2) - t0).total_seconds()) < 3.0
             for k2, v2 in first.items()
@@ -251,7 +300,7 @@ async def check_snapshot(loop, ctx, rig: Rig, include_expired: bool, meta: dict[
             ctx.count("fixpoint.schema_compared")
         if pkts_b != pkts_a and lost_only_expired(gwy_b, pkts_a, pkts_b):
             ctx.count("fixpoint.expired_purged")
-        elif pkts_b != pkts_a and only_array_halves_merged(pkts_a, pkts_b, joined_a):
+        elif pkts_b != pkts_a and only_array_halves_merged(pkts_a, pkts_b, joined_a, rig.fed):
             ctx.violate("C16|fixpoint|array-halves-rejoined-on-restore", "two halves of an array (000A/22C9) that were kept apart live are joined when restored: the snapshot loses a packet", {"diff": diff_pkts(pkts_a, pkts_b), "stack": rig.stack, "history": meta})
         elif pkts_b != pkts_a:
             d = diff_pkts(pkts_a, pkts_b)
@@ -261,7 +310,7 @@ async def check_snapshot(loop, ctx, rig: Rig, include_expired: bool, meta: dict[
                 "snapshot -> fresh gateway -> snapshot does not give back the same packets",
                 {"diff": d, "include_expired": include_expired, "stack": rig.stack, "history": meta},
             )
-        if judge_schema and schema_b != schema_a:
+        if judge_schema and not same_schema_modulo_ageing(schema_a, schema_b):
             ctx.violate(
                 "C16|fixpoint|schema-differs",
                 "snapshot -> fresh gateway -> snapshot does not give back the same schema (eavesdropping off)",
@@ -280,7 +329,7 @@ async def check_snapshot(loop, ctx, rig: Rig, include_expired: bool, meta: dict[
             ctx.count("idempotence.compared")
             if pkts_c != ref_pkts and lost_only_expired(g, ref_pkts, pkts_c):
                 ctx.count("idempotence.expired_purged")
-            elif pkts_c != ref_pkts and only_array_halves_merged(ref_pkts, pkts_c, joined_a):
+            elif pkts_c != ref_pkts and only_array_halves_merged(ref_pkts, pkts_c, joined_a, rig.fed):
                 ctx.violate("C16|fixpoint|array-halves-rejoined-on-restore", "two halves of an array (000A/22C9) that were kept apart live are joined when restored: the snapshot loses a packet", {"diff": diff_pkts(ref_pkts, pkts_c), "stack": rig.stack, "history": meta})
             elif pkts_c != ref_pkts:
                 d = diff_pkts(ref_pkts, pkts_c)
@@ -290,7 +339,7 @@ async def check_snapshot(loop, ctx, rig: Rig, include_expired: bool, meta: dict[
                     f"restoring the same snapshot again into the {name} gateway changed its packets",
                     {"diff": d, "include_expired": include_expired, "stack": rig.stack, "history": meta},
                 )
-            if judge_schema and schema_c != ref_schema:
+            if judge_schema and not same_schema_modulo_ageing(ref_schema, schema_c):
                 ctx.violate(
                     f"C16|idempotence|schema-differs|{name}",
                     f"restoring the same snapshot again into the {name} gateway changed its schema (eavesdropping off)",
@@ -323,6 +372,8 @@ async def feed_double(loop, rig: Rig, f1: str, f2: str, dtm: str = "") -> None:
     """Two frames in one serial read: one read() call returns both lines."""
     rig.trail += [f1, f2]
     await rig.wait_gap(dtm)
+    now = loop.now_dt().isoformat(timespec="microseconds")
+    rig.fed += [(now, f1), (now, f2)]
     rig.gwy._vrf_port.stage((f1 + "\r\n" + f2 + "\r\n").encode("latin-1"))
     await asyncio.sleep(0.02)
     await vloop.drain(loop, 6)
